@@ -304,7 +304,7 @@ def run_C12(run):
     fails = oracle_sweep(run, "C12", [("all", [])], run.tier)
     run.fails = run.triage(fails)
     run.assumptions = ["identities are over the exact real value of the traced float expressions (sqrt = real square root); 'within rounding' is exercised by the oracle only",
-                       "gtx orthonormalize / angle / orientedAngle / closestPointOnLine / triangleNormal / l1-l2-lMax norms are traced but have no theorem yet (oracle / trace self-validation only)",
+                       "gtx lMax norms, the 4-argument l2Norm/lxNorm overloads and the matrix orthonormalize are traced but have no theorem (oracle / trace self-validation only); angle / orientedAngle / l1-l2 norms / triangleNormal / vector orthonormalize / closestPointOnLine are theorems",
                        "double shares the template code (oracle only)"]
     return run.finish(TRUST_COMMON + ["oracle_C12.cpp: long-double references on tiny/huge/axis-aligned/integer/generic vectors (violation search only)"],
                       "theorems: all component values (symbolic), lengths 1-4 enumerated, scalar overloads included; oracle: 5 vector classes x lengths x float/double",
@@ -355,7 +355,7 @@ def run_C13(run):
     run.fails = run.triage(fails)
     run.assumptions = ["real-number semantics: acos/sin/cos are the real functions; the 'no NaN' statement is the real-valued guard (acos argument in [0,1-eps], sin(theta) <> 0) plus the assumption that libm's acos/sin return non-NaN values on in-range arguments",
                        "float-level effects (a dot product rounding above 1) are not visible in the real model: they are exercised by oracle_C13 (identical / nearly parallel / nearly antipodal pairs) - testing",
-                       "slerp(x,y,t) = +-slerp(y,x,1-t), shortMix/fastMix/squad/intermediate and dual-quaternion lerp: traced, covered by the storage-macro identity theorem, semantic statements by the oracle only"]
+                       "slerp(x,y,t) = +-slerp(y,x,1-t), squad and intermediate: traced, covered by the storage-macro identity theorem, semantic statements by the oracle only; shortMix, fastMix and the dual-quaternion lerp are theorems"]
     return run.finish(TRUST_COMMON + ["oracle_C13.cpp: long-double reference slerp (violation search)"],
                       "theorems: all quaternion components and t symbolic; oracle: six classes of angular separation (generic, 1e-9..1e-1 rad, identical, pi-1e-9.., around the linear-fallback threshold, orthogonal) x both hemispheres x t in [-2,3] x spins -3..3 x float/double x 3 storage configurations",
                       CHECKER)
